@@ -76,6 +76,8 @@ structure State where
   queue   : List Nat := []        -- cond._waiters, arrival order
   arrival : Nat := 0
   exits   : List ExitRec := []    -- newest first
+  inwait  : List Nat := []        -- ghost: the tasks currently inside wait() (pc ≠ idle), in order of entry
+  issued  : Nat := 0              -- ghost: futures set by notify/notify_all/_notify(1) so far (one per woken waiter)
 
 def init (k : Kind) : State := { kind := k }
 
@@ -197,7 +199,8 @@ def finish (s : State) (j : Nat) : State :=
   let x' : Waiter := { r.1 j with pc := .idle, cur := none, err := none,
                                   inWF := x.inWF && !leaveWF }
   let exits := if leaveWF then { rec1 with wf := true } :: rec1 :: s.exits else rec1 :: s.exits
-  { s with w := setW r.1 j x', exits := exits }
+  { s with w := setW r.1 j x', exits := exits, inwait := s.inwait.erase j,
+           issued := s.issued + r.2.length }
 
 def step (s : State) : Event → Option State
   | .acq j =>
@@ -226,7 +229,8 @@ def step (s : State) : Event → Option State
         w := setW s.w j { s.w j with pc := .waiting, pri := pri, arr := s.arrival, fut := .pending,
                                      cur := none, err := none, thrown := false },
         queue := s.queue ++ [j],
-        arrival := s.arrival + 1 }
+        arrival := s.arrival + 1,
+        inwait := s.inwait ++ [j] }
     else none
   | .deliver j e c =>
     let x := s.w j
@@ -270,10 +274,12 @@ def step (s : State) : Event → Option State
     else none
   | .notify j n =>
     if s.owner = some j then
-      some { s with w := (notifyFn s.kind n s.w s.queue).1 } else none
+      some { s with w := (notifyFn s.kind n s.w s.queue).1,
+                    issued := s.issued + (notifyFn s.kind n s.w s.queue).2.length } else none
   | .notifyAll j =>
     if s.owner = some j then
-      some { s with w := (notifyFn s.kind s.queue.length s.w s.queue).1 } else none
+      some { s with w := (notifyFn s.kind s.queue.length s.w s.queue).1,
+                    issued := s.issued + (notifyFn s.kind s.queue.length s.w s.queue).2.length } else none
 
 /-- run a whole event sequence; `none` as soon as an event is not enabled -/
 def run (s : State) : List Event → Option State
